@@ -148,6 +148,31 @@ def provenance(run: pipe.Run, upto=None):
     return tags
 
 
+def cause_of(tags):
+    """Known stale-bookkeeping causes (F10 family), from the provenance tags of the directory concerned."""
+    tags = set(tags)
+    if "first-seen-under-the-stale-path-of-a-directory-that-was-moved-out" in tags:
+        return "stale-path-of-moved-out-directory-reused-before-first-read"
+    if ({"moved-out", "ancestor-moved-out"} & tags) and ({"moved-in-from-outside", "ancestor-moved-in"} & tags):
+        return "directory-left-the-tree-and-came-back"
+    return "other"
+
+
+def tags_of_paths(run: pipe.Run, paths):
+    """Provenance tags of the directories that contain the given absolute byte paths (nearest known ancestor)."""
+    prov = provenance(run)
+    out = set()
+    for p in paths:
+        rel = tuple(os.path.relpath(os.fsdecode(p), run.sc).split("/"))
+        while rel and rel not in prov:
+            rel = rel[:-1]
+        # also every ancestor inside the tree
+        while len(rel) > 1:
+            out |= prov.get(rel, set())
+            rel = rel[:-1]
+    return out
+
+
 def history_tags(run: pipe.Run):
     t = set()
     for v in provenance(run).values():
@@ -282,6 +307,8 @@ def justified(run: pipe.Run, ev, ops_so_far):
         for o in ops_so_far:
             if o["kind"] == "chmod" and o["p"] == src:
                 return None
+            if o["kind"] == "rename" and o["q"] == src and o.get("replaced") and o.get("replaced_dir"):
+                return None       # the directory that was replaced by the rename: its own metadata changed (IN_ATTRIB)
             for x in (o["p"], o["q"]):
                 if x and par(x) == src and o["kind"] != "chmod":
                     return None
@@ -316,6 +343,8 @@ def justified(run: pipe.Run, ev, ops_so_far):
         elif what in ("Modified",):
             if k in ("write", "chmod") and p == src and not isdir and not synth:
                 return None
+            if not isdir and not synth and ((k == "unlink" and p == src) or (k == "rename" and q == src and o.get("replaced"))):
+                return None       # the file's link count changed (IN_ATTRIB on a file that happens to have its own watch)
         elif what in ("Opened", "Closed", "ClosedNoWrite"):
             if k in ("touch", "write") and p == src and not synth:
                 return None
